@@ -370,10 +370,21 @@ def check_output(ctx, case):
     elif form == 'add_neg':
         arg, ok = -n - 1, False
     elif form == 'add_frac':
-        arg, ok = n + case.get('frac', 0.5), False
+        import math
+        frac = case.get('frac', 0.5)
+        if frac in ('ulp-', 'ulp+'):
+            # the float next to the whole number n (what decimal coin amounts times 1e8 produce: 0.29 * 1e8)
+            arg = math.nextafter(float(n), -math.inf if frac == 'ulp-' else math.inf)
+            if float(n) != n:
+                ctx.exclude('output.add_frac.not_representable')
+                return
+        else:
+            arg = n + frac
+        ok = False
         if float(arg) == int(arg):            # fraction lost in float representation: nothing to learn
             ctx.exclude('output.add_frac.not_representable')
             return
+        near = frac in ('ulp-', 'ulp+') or abs(frac) < 0.01
     else:
         raise Discrepancy('harness.bad_form', form, case)
     t = tr.Transaction(network=net, witness_type='legacy')
@@ -387,6 +398,10 @@ def check_output(ctx, case):
         ctx.refusal('output.add.%s' % form)
         return
     wire = _wire_amount(raw)
+    if not ok and form == 'add_frac' and near and wire == n and val == n:
+        # (not whole, but nearer to n than any float arithmetic resolves: taking it as n puts no wrong amount anywhere)
+        ctx.klass('output.add_frac.taken_as_nearest')
+        return
     if not ok:
         raise Discrepancy('output.add.accepted', 'add_output(%r) was serialised with amount %r' % (arg, wire), case)
     if type(val) is not int or val != n or wire != n:
@@ -661,7 +676,7 @@ def output_strategy():
         return case
     return st.tuples(amounts_strategy(), st.sampled_from(DENS), st.sampled_from(names),
                      st.sampled_from(['text', 'text', 'value', 'int', 'add_int', 'add_float', 'add_neg', 'add_frac']),
-                     st.booleans(), st.sampled_from([0.5, 0.25, 0.125, 0.75])).map(build)
+                     st.booleans(), st.sampled_from([0.5, 0.25, 0.125, 0.75, 'ulp-', 'ulp-', 'ulp+', 1e-9, -1e-9, -4e-9])).map(build)
 
 
 # ---- deterministic parts ---------------------------------------------------------------------------
